@@ -307,6 +307,12 @@ func (s *Stream) ReceiveFrame(ctx context.Context) ([]byte, error) {
 
 	// Handle zero-length messages
 	if messageLength == 0 {
+		// An encrypted frame always carries at least the GCM tag, so a
+		// zero-length frame on an encrypted stream is unauthenticated: reject
+		// it rather than hand it to the caller without decryption.
+		if s.gcm != nil && s.encrypted {
+			return nil, fmt.Errorf("zero-length frame on encrypted stream")
+		}
 		return []byte{}, nil
 	}
 
@@ -362,6 +368,13 @@ func (s *Stream) ReceiveFrameWithEnd(ctx context.Context) ([]byte, byte, error) 
 
 	// Handle zero-length messages
 	if messageLength == 0 {
+		// An encrypted frame always carries at least the GCM tag, so a
+		// zero-length frame on an encrypted stream is unauthenticated: reject
+		// it rather than hand it (and its end flag) to the caller without
+		// decryption.
+		if s.gcm != nil && s.encrypted {
+			return nil, 0, fmt.Errorf("zero-length frame on encrypted stream")
+		}
 		// Track header for AAD digest calculation
 		if s.recvDigest != nil && s.finalRecvDigest == nil {
 			s.recvDigest.Write(header)
